@@ -240,6 +240,19 @@ Proof.
     + change (a :: m ++ [z]) with ((a :: m) ++ [z]) in H. apply Forall_app in H. destruct H as [_ H]. now inversion H.
 Qed.
 
+Lemma trim_ws_final_ws : forall w z, w <> [] -> Forall (fun c => is_ws c = false) w -> is_ws z = true ->
+  trim_ws (w ++ [z]) = w.
+Proof.
+  intros w z Hne Hw Hz. destruct w as [|a w]; [contradiction|].
+  unfold trim_ws. cbn [app]. rewrite drop_ws_head by now inversion Hw.
+  change (a :: w ++ [z]) with ((a :: w) ++ [z]). rewrite rev_app_distr. cbn [rev app drop_ws]. rewrite Hz.
+  assert (Hr : Forall (fun c => is_ws c = false) (rev w ++ [a])).
+  { apply Forall_app. split; [apply Forall_rev; now inversion Hw|constructor; [now inversion Hw|constructor]]. }
+  destruct (rev w ++ [a]) as [|y l] eqn:E.
+  - destruct (rev w); discriminate.
+  - rewrite drop_ws_head by now inversion Hr. rewrite <- E. rewrite rev_app_distr, rev_involutive. reflexivity.
+Qed.
+
 (* ---------------- backend lexer on the two output shapes ---------------- *)
 Lemma delim_body_double : forall fq v, delim_body fq (double fq v ++ [fq]) = Some (v, []).
 Proof.
@@ -353,6 +366,38 @@ Proof.
   - destruct v; [contradiction|]. exfalso. eapply requires_quotes_nonempty; eauto.
 Qed.
 
+(* ... and the guard is exact: no name of the excluded region reads back as itself *)
+Lemma fold_length : forall s, length (fold b s) = length s.
+Proof. intro s. unfold fold. destruct (b_fold b); auto; apply map_length. Qed.
+
+Lemma bare_nl_never_roundtrips : forall v, bare_nl p v = true ->
+  quote p v = Ok v /\ lex_sent b v <> Some v.
+Proof.
+  intros v H. unfold bare_nl in H. apply andb_prop in H. destruct H as [Hnl Hq].
+  apply negb_true_iff in Hnl. destruct (requires_quotes p v) as [[|]|] eqn:Hrq; try discriminate. clear Hq.
+  split; [unfold quote, quote_force; now rewrite Hrq|].
+  destruct wf_facts as (_ & _ & Hli & _ & _ & Hlp & Hws & _ & _ & _ & _ & _ & _ & _).
+  destruct compat_facts as (Hbi & _).
+  destruct (requires_quotes_false _ _ Hrq) as (c0 & r0 & _ & _ & _ & Hlm & _).
+  unfold legal_match in Hlm. rewrite Hnl in Hlm. cbn [orb] in Hlm.
+  destruct (strip_final_nl v) as [w|] eqn:Es; [|discriminate]. apply strip_final_nl_spec in Es. subst v.
+  apply all_legal_forall in Hlm. destruct Hlm as [Hne Hall].
+  assert (Hd : driver b (w ++ [nl]) = Some (w ++ [nl])).
+  { unfold driver. destruct (b_pct b); auto. apply undouble_strict_notin. intro Hin.
+    apply in_app_or in Hin. destruct Hin as [Hin|[Hin|[]]]; [|discriminate].
+    rewrite Forall_forall in Hall. specialize (Hall _ Hin). congruence. }
+  unfold lex_sent. rewrite Hd. unfold lex_ident. rewrite trim_ws_final_ws; auto.
+  2:{ eapply Forall_impl; [|exact Hall]. cbn. intros a Ha. destruct (is_ws a) eqn:E; auto.
+      rewrite (Hws a E) in Ha. discriminate. }
+  destruct w as [|c r]; [contradiction|].
+  destruct (N.eqb_spec c (b_iq b)) as [E|E].
+  { rewrite Hbi in E. subst c. inversion Hall. congruence. }
+  destruct (in_ranges (b_start b) c && forallb (in_ranges (b_cont b)) r); [|discriminate].
+  destruct (mem_str _ _); [discriminate|]. intro E2. inversion E2 as [E3].
+  apply (f_equal (@length N)) in E3. rewrite fold_length in E3. cbn [length app] in E3.
+  rewrite app_length in E3. cbn [length] in E3. lia.
+Qed.
+
 (* whenever quoting is skipped the backend's folding does not change the name (lower/none folding) *)
 Lemma bare_fold_identity : forall v, requires_quotes p v = Ok false -> b_fold b <> FoldUpper -> fold b v = v.
 Proof.
@@ -361,6 +406,33 @@ Proof.
   destruct compat_facts as (_ & _ & _ & _ & _ & Hdom & _).
   destruct (requires_quotes_false _ _ Hq) as (c & r & Hv & _ & _ & _ & Hlow).
   apply (ascii_lower_id (map fst (p_lower p))); auto. now apply lower_fix_notin.
+Qed.
+
+(* upper-folding backends (Oracle): the stored name is the name up to ASCII case - lower-casing it, as
+   normalize_name does for all-upper-case reflected names, gives the name back *)
+Lemma ascii_lower_upper : forall s, Forall (fun c => N.leb 65 c && N.leb c 90 = false) s ->
+  map ascii_lower1 (map ascii_upper1 s) = s.
+Proof.
+  intros s H. induction H as [|c s Hcc _ IH]; [reflexivity|]. cbn [map]. rewrite IH. f_equal.
+  unfold ascii_upper1, ascii_lower1. destruct (N.leb 97 c && N.leb c 122) eqn:E.
+  - apply andb_prop in E. destruct E as [E1 E2]. apply N.leb_le in E1. apply N.leb_le in E2.
+    replace (N.leb 65 (c - 32) && N.leb (c - 32) 90) with true.
+    + lia.
+    + symmetry. apply andb_true_intro. split; apply N.leb_le; lia.
+  - now rewrite Hcc.
+Qed.
+
+Lemma bare_fold_upper_lower : forall v, requires_quotes p v = Ok false ->
+  map ascii_lower1 (map ascii_upper1 v) = v.
+Proof.
+  intros v Hq.
+  destruct wf_facts as (_ & _ & _ & _ & _ & _ & _ & _ & _ & _ & _ & _ & _ & Hlo & _).
+  destruct compat_facts as (_ & _ & _ & _ & _ & Hdom & _).
+  destruct (requires_quotes_false _ _ Hq) as (c & r & Hv & _ & _ & _ & Hlow).
+  apply ascii_lower_upper. pose proof (lower_fix_notin p v Hlo Hlow) as Hn.
+  eapply Forall_impl; [|exact Hn]. cbn. intros a Ha.
+  destruct (N.leb 65 a && N.leb a 90) eqn:E; auto.
+  rewrite forallb_forall in Hdom. specialize (Hdom a (enum_range_In (65, 90) a E)). congruence.
 Qed.
 
 Lemma stored_identity : forall v, b_fold b <> FoldUpper -> stored p b v = v.
@@ -448,51 +520,87 @@ Qed.
 Lemma unformat_total : forall p s, unformat p s <> None.
 Proof. intros p s. apply unformat_fuel_total. lia. Qed.
 
+(* what unformat_identifiers gives back for a component: the name with every "%" doubled when the
+   dialect doubles percent signs (the escape of "%" is never undone), the name itself otherwise *)
+Definition pctd (p : prep) (v : str) : str := if p_esc_pct p then double pct v else v.
+
+Lemma double_app : forall c a b, double c (a ++ b) = double c a ++ double c b.
+Proof. intros. unfold double. apply flat_map_app. Qed.
+
+Lemma double_comm : forall c d s, c <> d -> double c (double d s) = double d (double c s).
+Proof.
+  intros c d s Hcd. induction s as [|x s IH]; [reflexivity|].
+  rewrite (double_cons d x s), (double_cons c x s), !double_app, IH. f_equal.
+  destruct (N.eqb_spec x d) as [Ed|Ed]; destruct (N.eqb_spec x c) as [Ec|Ec]; try congruence.
+  - subst x. cbn. destruct (N.eqb_spec d c); [congruence|]. now rewrite N.eqb_refl.
+  - subst x. cbn. destruct (N.eqb_spec c d); [congruence|]. now rewrite N.eqb_refl.
+  - cbn. destruct (N.eqb_spec x c); [congruence|]. destruct (N.eqb_spec x d); [congruence|]. reflexivity.
+Qed.
+
+Lemma double_length_le : forall c s, (length s <= length (double c s))%nat.
+Proof.
+  intros c s. induction s as [|x s IH]; [auto|]. rewrite double_cons, app_length. cbn [length].
+  destruct (N.eqb x c); cbn [length]; lia.
+Qed.
+Lemma double_length_lt : forall c s, In c s -> (length s < length (double c s))%nat.
+Proof.
+  intros c s. induction s as [|x s IH]; intro H; [destruct H|].
+  rewrite double_cons, app_length. cbn [length]. destruct (N.eqb_spec x c) as [E|E].
+  - cbn [length]. pose proof (double_length_le c s). lia.
+  - destruct H as [H|H]; [congruence|]. cbn [length]. specialize (IH H). lia.
+Qed.
+
 Section Unformat.
 Variable p : prep.
 Hypothesis Hwf : wf_prep p = true.
 
 Definition good_tail (t : str) : Prop := t = [] \/ exists t', t = dot :: t'.
 
-(* one output of quote() followed by "." or the end is consumed as exactly one component *)
-Lemma step_quoted : forall v t, v <> [] -> (p_esc_pct p = false \/ ~ In pct v) -> good_tail t ->
-  step p (quote_identifier p v ++ t) = (double (p_fq p) v, t) /\
-  unescape_identifier p (double (p_fq p) v) = v.
+Lemma escape_as_double : forall v, escape_identifier p v = double (p_fq p) (pctd p v).
 Proof.
-  intros v t Hne Hg Ht.
+  intro v. destruct (wf_facts p Hwf) as (He & _ & _ & _ & _ & _ & _ & _ & Hfp & _).
+  unfold escape_identifier, pctd. rewrite He. destruct (p_esc_pct p); auto.
+  apply double_comm. auto.
+Qed.
+
+(* one delimited output of quote() followed by "." or the end is consumed as exactly one component *)
+Lemma step_quoted : forall v t, v <> [] -> good_tail t ->
+  step p (quote_identifier p v ++ t) = (double (p_fq p) (pctd p v), t) /\
+  unescape_identifier p (double (p_fq p) (pctd p v)) = pctd p v.
+Proof.
+  intros v t Hne Ht.
   destruct (wf_facts p Hwf) as (He & Hu & _ & _ & _ & _ & _ & Hfd & Hfp & _).
-  assert (Hesc : escape_identifier p v = double (p_fq p) v).
-  { unfold escape_identifier. rewrite He. destruct (p_esc_pct p) eqn:Ep; auto.
-    apply double_notin. intro Hin. apply double_In_other in Hin. destruct Hg as [Hg|Hg]; [discriminate|contradiction]. }
+  assert (Hne' : pctd p v <> []).
+  { unfold pctd. destruct (p_esc_pct p); auto. now apply double_nonempty. }
   split.
-  - unfold step, try_quoted, quote_identifier. rewrite Hesc. cbn [app]. rewrite N.eqb_refl.
+  - unfold step, try_quoted, quote_identifier. rewrite escape_as_double. cbn [app]. rewrite N.eqb_refl.
     rewrite <- app_assoc. cbn [app]. rewrite qbody_double.
     2:{ intros x t' Hx. destruct Ht as [->|[t'' ->]]; [discriminate|]. inversion Hx; subst. auto. }
-    pose proof (double_nonempty (p_fq p) v Hne) as Hd. destruct (double (p_fq p) v) as [|d0 dd] eqn:Ed; [contradiction|].
+    pose proof (double_nonempty (p_fq p) (pctd p v) Hne') as Hd.
+    destruct (double (p_fq p) (pctd p v)) as [|d0 dd] eqn:Ed; [contradiction|].
     destruct Ht as [->|[t' ->]]; reflexivity.
   - unfold unescape_identifier. rewrite Hu. apply undouble_double.
 Qed.
 
 Lemma step_bare : forall v t, requires_quotes p v = Ok false -> good_tail t ->
-  step p (v ++ t) = (v, t) /\ unescape_identifier p v = v.
+  step p (v ++ t) = (v, t) /\ unescape_identifier p v = v /\ pctd p v = v.
 Proof.
   intros v t Hq Ht.
-  destruct (wf_facts p Hwf) as (_ & Hu & Hli & Hlf & Hld & _ & Hws & _ & _ & _ & _ & _ & Hwf' & _).
+  destruct (wf_facts p Hwf) as (_ & Hu & Hli & Hlf & Hld & Hlp & Hws & _ & _ & _ & _ & _ & Hwf' & _).
   destruct (requires_quotes_false _ _ Hq) as (c & r & Hv & _ & _ & Hlm & _).
   destruct (legal_match_chars _ _ Hlm) as (c' & r' & Hv' & Hc' & Hall).
-  assert (Hnot : forall x, In x v -> x <> dot /\ x <> p_fq p).
+  assert (Hnot : forall x, In x v -> x <> dot /\ x <> p_fq p /\ x <> pct).
   { intros x Hx. rewrite Forall_forall in Hall. destruct (Hall x Hx) as [Hx'|Hx'].
-    - split; intro; subst x; congruence.
-    - subst x. split; [discriminate|]. intro E. rewrite <- E in Hwf'. discriminate. }
-  split.
+    - repeat split; intro; subst x; congruence.
+    - subst x. split; [discriminate|]. split; [|discriminate]. intro E. rewrite <- E in Hwf'. discriminate. }
+  split; [|split].
   - unfold step, try_quoted. rewrite Hv' in *. cbn [app].
     destruct (N.eqb_spec c' (p_iq p)) as [E|E]; [subst c'; congruence|].
     change (c' :: r' ++ t) with ((c' :: r') ++ t). apply span_nodot_app; auto.
-    intro Hin. destruct (Hnot _ Hin). auto.
-  - unfold unescape_identifier. rewrite Hu. apply undouble_notin. intro Hin. destruct (Hnot _ Hin). auto.
+    intro Hin. destruct (Hnot _ Hin) as (? & ? & ?). auto.
+  - unfold unescape_identifier. rewrite Hu. apply undouble_notin. intro Hin. destruct (Hnot _ Hin) as (? & ? & ?). auto.
+  - unfold pctd. destruct (p_esc_pct p); auto. apply double_notin. intro Hin. destruct (Hnot _ Hin) as (? & ? & ?). auto.
 Qed.
-
-Definition pct_guard (names : list str) : Prop := p_esc_pct p = false \/ Forall (fun v => ~ In pct v) names.
 
 Lemma quote_head_not_dot : forall v q, quote p v = Ok q -> exists c r, q = c :: r /\ c <> dot.
 Proof.
@@ -504,51 +612,73 @@ Proof.
     intro; subst c'. congruence.
 Qed.
 
-Lemma step_quote : forall v q t, v <> [] -> (p_esc_pct p = false \/ ~ In pct v) -> quote p v = Ok q -> good_tail t ->
-  snd (step p (q ++ t)) = t /\ unescape_identifier p (fst (step p (q ++ t))) = v.
+Lemma step_quote : forall v q t, v <> [] -> quote p v = Ok q -> good_tail t ->
+  snd (step p (q ++ t)) = t /\ unescape_identifier p (fst (step p (q ++ t))) = pctd p v.
 Proof.
-  intros v q t Hne Hg H Ht. unfold quote, quote_force in H.
+  intros v q t Hne H Ht. unfold quote, quote_force in H.
   destruct (requires_quotes p v) as [[|]|] eqn:Hq; inversion H; subst.
-  - destruct (step_quoted v t Hne Hg Ht) as [H1 H2]. rewrite H1. auto.
-  - destruct (step_bare q t Hq Ht) as [H1 H2]. rewrite H1. auto.
+  - destruct (step_quoted v t Hne Ht) as [H1 H2]. rewrite H1. auto.
+  - destruct (step_bare q t Hq Ht) as (H1 & H2 & H3). rewrite H1, H3. auto.
 Qed.
 
 Lemma unformat_format_fuel : forall names qs, quote_all p names = Ok qs ->
-  pct_guard names -> Forall (fun v => v <> []) names ->
-  forall fuel, (length (join_dot qs) < fuel)%nat -> unformat_fuel fuel p (join_dot qs) = Some names.
+  Forall (fun v => v <> []) names ->
+  forall fuel, (length (join_dot qs) < fuel)%nat ->
+  unformat_fuel fuel p (join_dot qs) = Some (map (pctd p) names).
 Proof.
-  induction names as [|v names IH]; intros qs Hq Hg Hne fuel Hf.
+  induction names as [|v names IH]; intros qs Hq Hne fuel Hf.
   - inversion Hq; subst. destruct fuel; [cbn in Hf; lia|]. reflexivity.
   - cbn [quote_all] in Hq. destruct (quote p v) as [q|] eqn:Hqv; [|discriminate].
     destruct (quote_all p names) as [qr|] eqn:Hqr; [|discriminate]. inversion Hq; subst qs. clear Hq.
     inversion Hne as [|? ? Hv Hne']; subst.
-    assert (Hgv : p_esc_pct p = false \/ ~ In pct v).
-    { destruct Hg as [Hg|Hg]; auto. right. now inversion Hg. }
-    assert (Hg' : pct_guard names).
-    { destruct Hg as [Hg|Hg]; [left; auto|right; now inversion Hg]. }
     destruct (quote_head_not_dot _ _ Hqv) as (c & r & Hqc & Hcd).
     set (t := match qr with [] => [] | _ => dot :: join_dot qr end).
     assert (Hj : join_dot (q :: qr) = q ++ t).
     { subst t. cbn [join_dot]. destruct qr; [now rewrite app_nil_r|reflexivity]. }
     assert (Ht : good_tail t). { subst t. destruct qr; [left; auto|right; eauto]. }
-    rewrite Hj in *. destruct (step_quote v q t Hv Hgv Hqv Ht) as [H1 H2].
+    rewrite Hj in *. destruct (step_quote v q t Hv Hqv Ht) as [H1 H2].
     destruct fuel as [|f]; [lia|]. rewrite Hqc in *. cbn [app] in *. rewrite unformat_fuel_unfold.
     destruct (N.eqb_spec c dot); [contradiction|]. rewrite H1, H2.
-    assert (Hrest : unformat_fuel f p t = Some names).
+    assert (Hrest : unformat_fuel f p t = Some (map (pctd p) names)).
     { subst t. destruct qr as [|q2 qr'].
       - destruct names as [|v2 names']; [|cbn [quote_all] in Hqr; destruct (quote p v2); [destruct (quote_all p names')|]; discriminate].
         destruct f; [cbn [length] in Hf; lia|]. reflexivity.
       - destruct f as [|f']; [cbn [length] in Hf; lia|]. cbn [unformat_fuel]. rewrite N.eqb_refl.
         apply IH; auto. cbn [length] in Hf. rewrite app_length in Hf. cbn [length] in Hf. lia. }
-    now rewrite Hrest.
+    rewrite Hrest. reflexivity.
 Qed.
+
+(* EXACT: splitting the dotted form gives the components with "%" doubled where the dialect doubles it *)
+Lemma unformat_format_exact : forall names text, format_path p names = Ok text ->
+  Forall (fun v => v <> []) names -> unformat p text = Some (map (pctd p) names).
+Proof.
+  intros names text H Hne. unfold format_path in H. destruct (quote_all p names) as [qs|] eqn:Hq; [|discriminate].
+  inversion H; subst. unfold unformat. eapply unformat_format_fuel; eauto.
+Qed.
+
+Definition pct_guard (names : list str) : Prop := p_esc_pct p = false \/ Forall (fun v => ~ In pct v) names.
 
 (* splitting the dotted form recovers the components (guarded by the "%" defect) *)
 Lemma unformat_format_guarded : forall names text, format_path p names = Ok text ->
   pct_guard names -> Forall (fun v => v <> []) names -> unformat p text = Some names.
 Proof.
-  intros names text H Hg Hne. unfold format_path in H. destruct (quote_all p names) as [qs|] eqn:Hq; [|discriminate].
-  inversion H; subst. unfold unformat. eapply unformat_format_fuel; eauto.
+  intros names text H Hg Hne. rewrite (unformat_format_exact names text H Hne). f_equal.
+  assert (Hid : forall l : list str, map (fun v : str => v) l = l) by (intro l; apply map_id).
+  unfold pctd. destruct Hg as [Hg|Hg]; [rewrite Hg; apply Hid|].
+  destruct (p_esc_pct p); [|apply Hid].
+  clear H Hne. induction Hg as [|v l Hv _ IH]; [reflexivity|]. cbn [map]. rewrite IH. f_equal. now apply double_notin.
+Qed.
+
+(* ... and the guard is exact: outside it the components are NOT recovered *)
+Lemma unformat_format_refuted_all : forall names text, format_path p names = Ok text ->
+  Forall (fun v => v <> []) names -> p_esc_pct p = true -> Exists (fun v => In pct v) names ->
+  unformat p text <> Some names.
+Proof.
+  intros names text H Hne Hp Hex. rewrite (unformat_format_exact names text H Hne). unfold pctd. rewrite Hp.
+  intro E. inversion E as [E']. clear E H Hne.
+  induction Hex as [v l Hv|v l _ IH].
+  - cbn [map] in E'. inversion E' as [[E1 E2]]. pose proof (double_length_lt pct v Hv) as HL. rewrite E1 in HL. lia.
+  - cbn [map] in E'. inversion E'. auto.
 Qed.
 End Unformat.
 
